@@ -153,10 +153,30 @@ Theorem C03_perform_mem_virtio : forall cap u a p,
   o_mem (perform Virtio cap u a) = p.
 Proof. exact perform_mem_virtio. Qed.
 
-(* the action of every opcode round-trips for every result kind that opcode returns *)
+(* READDIR / READDIRPLUS since fix 65c0776 (the gate is size + 16 <= buffer, [readdir_room]): the
+   records the filesystem adds (at most [size] bytes) always fit the data half of the buffer, so the
+   model's EIO branch after the call is unreachable, and a listing handler that reached its call
+   answers with exactly the records -- for every request byte string and entry list *)
+Theorem C03_readdir_never_overruns : forall ds plus size wcap,
+  names_ok ds = true -> size + OUT_HDR <= wcap ->
+  (wcap - OUT_HDR <? blen (fill_dirents ds plus size [])) = false.
+Proof. exact readdir_never_overruns. Qed.
+Theorem C03_readdir_reached_room : forall cfg h ctx r fs wcap,
+  h_opcode h = 28 \/ h_opcode h = 44 ->
+  fst (handler cfg h ctx r fs wcap) <> [] -> u32 16 r + OUT_HDR <= wcap.
+Proof. exact readdir_reached_room. Qed.
+Theorem C03_readdir_reply_is_listing : forall cfg h ctx r wcap ds,
+  h_opcode h = 28 \/ h_opcode h = 44 -> names_ok ds = true ->
+  fst (handler cfg h ctx r (FDirents ds) wcap) <> [] ->
+  snd (handler cfg h ctx r (FDirents ds) wcap) =
+    ReplySplit (fill_dirents ds (h_opcode h =? 44) (u32 16 r) []).
+Proof. exact readdir_reply_is_listing. Qed.
+
+(* the action of every opcode round-trips for every result kind that opcode returns
+   ([reply_fits]: read data fits the buffer; names of a listing are shorter than 2^32) *)
 Theorem C03_action_roundtrip : forall q minor cap fs a,
   q_unique q < 2 ^ 64 -> cap < 2 ^ 32 ->
-  kind_ok (q_op q) fs = true -> reply_fits q cap fs ->
+  kind_ok (q_op q) fs = true -> reply_fits q cap fs -> readdir_room q cap ->
   post_action (q_op q) minor cap (fld q "size") fs = Some a -> action_len a <= cap ->
   exists p, action_msg (q_unique q) a = Some p /\ reply_ok q minor fs p = true.
 Proof. exact post_action_roundtrip. Qed.
@@ -164,8 +184,8 @@ Proof. exact post_action_roundtrip. Qed.
 (* The property on the model of handle_message, for ALL request bytes [req]: if the request
    carries the opcode / unique / size of [q], the operation was called (two calls: the id
    translation and the operation), the filesystem answered [fs] of a kind that operation
-   returns ([kind_ok]; [reply_fits]: read data / directory records fit the buffer, names < 2^32
-   bytes) and the reply fits the reply buffer, then exactly one packet reaches /dev/fuse and
+   returns ([kind_ok]; [reply_fits]: read data fits the buffer, names of a listing < 2^32
+   bytes -- directory records always fit, C03_readdir_never_overruns) and the reply fits the reply buffer, then exactly one packet reaches /dev/fuse and
    the kernel-side decoder reads [fs] back out of it. *)
 Theorem C03_roundtrip : forall cfg cap req q fs,
   q_unique q < 2 ^ 64 -> cap < 2 ^ 32 ->
@@ -202,9 +222,8 @@ Theorem C03_entry_paths_agree :
   (forall cfg h ctx r wcap ds,
      h_opcode h = 44 ->
      fst (handler cfg h ctx r (FDirents ds) wcap) <> [] ->
-     let data := fill_dirents ds true (u32 16 r) [] in
-     blen data <= wcap - 16 ->
-     snd (handler cfg h ctx r (FDirents ds) wcap) = ReplySplit data) /\
+     names_ok ds = true ->
+     snd (handler cfg h ctx r (FDirents ds) wcap) = ReplySplit (fill_dirents ds true (u32 16 r) [])) /\
   (forall ds size, names_ok ds = true ->
      fill_dirents ds true size [] = flat_map (rec_bytes true) (fitting_prefix true ds size)) /\
   (forall d e, rec_bytes true (d, e) = entry_out e (e_attr_flags e) ++ rec_bytes false (d, e)).
@@ -247,7 +266,7 @@ Example C03_roundtrip_nonvacuous_readdirplus :
   q_unique q < 2 ^ 64 /\ 8192 < 2 ^ 32 /\
   u32 4 req = q_op q /\ u64 8 req = q_unique q /\ u32 56 req = fld q "size" /\
   kind_ok (q_op q) fs = true /\
-  (names_ok ex_dirents = true /\ (16 + blen (fill_dirents ex_dirents (q_op q =? 44) (fld q "size") []) <=? 8192) = true) /\
+  reply_fits q 8192 fs /\
   Nat.leb 2 (List.length (h_calls (handle ex_cfg FuseDev 8192 req fs))) = true /\
   (action_len (snd (fst (decide ex_cfg req fs 8192))) <=? 8192) = true /\
   (* two of the three entries fit 400 bytes: 2 records = 160 + 168 bytes *)
@@ -398,6 +417,9 @@ Print Assumptions C03_handler_action.
 Print Assumptions C03_perform_packet.
 Print Assumptions C03_read_reply_exact.
 Print Assumptions C03_perform_mem_virtio.
+Print Assumptions C03_readdir_never_overruns.
+Print Assumptions C03_readdir_reached_room.
+Print Assumptions C03_readdir_reply_is_listing.
 Print Assumptions C03_action_roundtrip.
 Print Assumptions C03_roundtrip.
 Print Assumptions C03_roundtrip_virtio.
